@@ -10,6 +10,7 @@ independent reader, not proved end to end.
 -/
 import RichchkModel.Model.RichEdit
 import RichchkModel.Lemmas.PassThrough
+import RichchkModel.Lemmas.RebuildLemmas
 namespace Richchk.Props.C07
 open Richchk
 
@@ -167,5 +168,27 @@ theorem c07_untouched_sections_in_place {cfg : RichCfg} {orders : Orders} {wmeta
     (i : Nat) (hi : i < rich.length) (hj : i < out.length) (n p : Bytes)
     (hs : rich[i] = .pass (.unknown n p)) : out[i] = .unknown n p :=
   ((richEncode_positions he).2 i hi hj).1 n p hs
+
+/-- **every pre-existing location slot still resolves to the location it held**: the rebuild adds
+new locations only on slots no existing location occupies (C09 soundness), so the lookup the MRGN
+encoder performs for an existing slot finds the same location as before the edits -/
+theorem c07_existing_location_slots_unchanged {cfg : RichCfg} {secs : List RSection} {order : Option (List Nat)}
+    {locs : List RLoc} {ids : List (Nat × Nat)} (h : rebuildMrgn cfg secs order = .ok (locs, ids)) :
+    ∃ table, secs.filter (isSectionNamed nMRGN) = [.mrgn table] ∧
+      ∀ i, (∃ t ∈ table, t.idx = some i) →
+        locs.reverse.find? (fun l => l.idx == some i) = table.reverse.find? (fun l => l.idx == some i) :=
+  rebuildMrgn_keeps_slots h
+
+/-- **every pre-existing unit-property slot is written with the same record**, whatever sets the
+edits added -/
+theorem c07_existing_cuwp_records_unchanged {cfg : RichCfg} {secs : List RSection} {order : Option (List Nat)}
+    {cuwps : List RCuwp} (h : rebuildUprp cfg secs order = .ok cuwps) :
+    ∃ table, (secs.filter (isSectionNamed nUPRP) = [] ∧ table = [] ∨ secs.filter (isSectionNamed nUPRP) = [.uprp table]) ∧
+      ∀ i, i < cfg.cuwpSlots → (∃ t ∈ table, t.idx = some (i + 1)) →
+        (encodeUprp cfg cuwps)[i]? = (encodeUprp cfg table)[i]? := by
+  obtain ⟨table, ht, hfind⟩ := rebuildUprp_keeps_slots h
+  refine ⟨table, ht, fun i hi hex => ?_⟩
+  simp only [encodeUprp, List.getElem?_map, List.getElem?_range hi, Option.map_some]
+  rw [hfind (i + 1) hex]
 
 end Richchk.Props.C07
